@@ -14,6 +14,26 @@ if TYPE_CHECKING:
     from .tokenizer import Token, Tokenizer, TokenType
 
 
+def substitute_params(string: str, replacements: dict[str, str]) -> str:
+    """
+    Replace every key of `replacements` found in the string with its value in a single pass.
+    The longest key is tried first and the substituted text is never scanned again
+    (so an argument that mentions another parameter is not replaced a second time)
+
+    :param string: String to substitute in
+    :param replacements: Dictionary of text to replace (e.g. `$param`) and text to replace it with
+    :return: Substituted string
+    """
+    keys = [key for key in sorted(replacements, key=len, reverse=True) if key]
+    if not keys:
+        return string
+    return re.sub(
+        "|".join(re.escape(key) for key in keys),
+        lambda match: replacements[match.group(0)],
+        string,
+    )
+
+
 class SingleTonMeta(type):
     """
     Metaclass for singleton
